@@ -274,7 +274,7 @@ def main(tier, seed):
     cov["expected_refusals_observed"] = sum(1 for r in results if r.get("expected_refusal"))
     cov["rule"] = ("9 collection shapes (single/dict/list/nested to depth 3, <=5 leaves, also annotation-defined) x leaf specs from a "
                    "12-entry pool (unsigned 0-3, signed 1-3, enum, range; r/w/rw/nc) x register access r/w/rw; all port values (width<=8)")
-    return finish(PID, tier, seed, "model_checking", cov, ASSUMPTIONS, t0, results)
+    return finish(PID, tier, seed, "model_checking", cov, ASSUMPTIONS, t0, results, min_explored=int(0.35 * len(results)))
 
 
 ASSUMPTIONS = [
